@@ -237,7 +237,7 @@ func freeVars(x interface{}, bound map[string]bool, out map[string]bool) {
 	}
 	switch v := x.(type) {
 	case nil:
-	case IntLit, StrLit, StrSrc, BoolLit, UnitLit, RawStr:
+	case IntLit, IntSrc, StrLit, StrSrc, BoolLit, UnitLit, RawStr:
 	case Var:
 		if !bound[v.Name] && !strings.HasPrefix(v.Name, "_.") {
 			out[v.Name] = true
@@ -1388,7 +1388,7 @@ func substVars(x interface{}, m map[string]Expr) interface{} {
 		return substVars(b, m).(*Block)
 	}
 	switch v := x.(type) {
-	case IntLit, StrLit, StrSrc, BoolLit, UnitLit, RawStr:
+	case IntLit, IntSrc, StrLit, StrSrc, BoolLit, UnitLit, RawStr:
 		return v
 	case Var:
 		if r, ok := m[v.Name]; ok {
